@@ -11,6 +11,12 @@ ENG_NOTE = ('Serial transactions in one process (tx_lock) - statement-level race
             'RPC transport, post-commit thread spawning, scheduler threads and action bodies replaced by the deterministic world; reliable '
             'messaging (duplicates/reordering explored, no loss).')
 ENG_TECH = 'TLA+ property formulas (EngineProps) evaluated by TLC on every step of recorded runs of the real engine under controlled schedules'
+ENG_MODEL = (' Model level: MistralEngine.tla (one action per atomic step of the code: start, post-commit operations, message deliveries, '
+             'three-step scheduler jobs, operator pause / resume / stop, redeliveries, clock) is model-checked exhaustively by TLC on the '
+             'shape catalogue with the stated operator / redelivery budgets, the property formulas holding modulo the named known-finding '
+             'situations; every recorded run inside the model\'s scope is validated strictly as a behaviour of the model (EngineTrace.tla, '
+             'unlogged choices inferred by TLC) - a run that is not accepted is reported as DIVERGENCE.')
+ENG_TECH_M = ENG_TECH + ' + exhaustive TLC model checking of MistralEngine.tla with strict trace validation of the recorded runs'
 
 # id -> (engine, category, text, note, technique, design_ref)
 CHECKS = {
@@ -59,8 +65,8 @@ CHECKS = {
     'C03': ('engine', 'model_checking',
             'Runs with operator commands (pause, resume, stop with each state, rerun) and duplicate deliveries injected at random points; '
             'TLC judges WfMoves (every committed state change AND every individual SQL-level state write against the transition table), '
-            'ResultOnce, SuccessSticky, FinishedFrozen on every step.',
-            'Serial transactions in one process (tx_lock) - statement-level races between engine processes are out of reach here; sqlite; RPC transport, post-commit thread spawning, scheduler threads and action bodies replaced by the deterministic world; reliable messaging (duplicates/reordering explored, no loss).', 'TLA+ property formulas (EngineProps) evaluated by TLC on every step of recorded runs of the real engine under controlled schedules', '5, 7-C03'),
+            'ResultOnce, SuccessSticky, FinishedFrozen on every step.' + ENG_MODEL + ' Budgets: 1 operator command of any kind + 1 redelivery at any point of every catalogue shape; 2 (thorough 3) commands on the small shapes.',
+            ENG_NOTE, ENG_TECH_M, '5, 7-C03'),
     'C04': ('engine', 'model_checking',
             'Fork/join shapes (nested joins, joins fed by on-error/on-complete, guards that do not fire) and reverse requires-graphs under '
             'adversarial completion orders; TLC judges JoinGate, JoinOnce, Caused, ReqGate, OnlyNeededOnce, NoWaitingAtRest on every step.',
@@ -83,8 +89,8 @@ CHECKS = {
             'start-task, start-workflow-with-id, run-action requests) re-delivered at random later points; TLC judges DupNoEffect (a '
             'redelivery leaves every row unchanged), NoDoubleDispatch, StartOnce, ResultOnce on every step. Executor side: Executor.tla '
             '(refuse-if-redelivered-and-unsafe, at most one successfully sent result) model-checked exhaustively and every one of its 216 '
-            'input combinations run through the real ExecutorServer.run_action with scripted action body / engine client, validated by TLC.',
-            ENG_NOTE, ENG_TECH + ' + exhaustive executor model with trace validation', '5, 6.4, 7-C06'),
+            'input combinations run through the real ExecutorServer.run_action with scripted action body / engine client, validated by TLC.' + ENG_MODEL + ' Budget: 2 redeliveries of any delivered message at any later point of every catalogue shape (DupNoEffectM, StartOnceM, ResultOnceM).',
+            ENG_NOTE, ENG_TECH_M + ' + exhaustive executor model with trace validation', '5, 6.4, 7-C06'),
     'C07': ('engine', 'model_checking',
             'with-items tasks over 0..4 items (actions and sub-workflows, concurrency absent/1..n+1, per-item outcomes, rerun with reset '
             'on/off) under schedules interleaving item completions with the keyed accounting jobs; TLC judges WithinLimit, OnePerIndex, '
@@ -96,12 +102,12 @@ CHECKS = {
             ENG_NOTE, ENG_TECH, '5, 7-C09'),
     'C10': ('engine', 'model_checking',
             'Pause at a random step and resume later (catalogue shapes: fixed grid of pause/resume points); TLC judges PauseAck, '
-            'NoNewTasksWhilePaused, StartOnce, NoDoubleDispatch and - after resume - NoHang / NoWaitingAtRest on every step.',
-            ENG_NOTE, ENG_TECH, '5, 7-C10'),
+            'NoNewTasksWhilePaused, StartOnce, NoDoubleDispatch and - after resume - NoHang / NoWaitingAtRest on every step; the final outcome of every eligible run is compared with the outcomes WfSemantics.tla prescribes (clause Prescribed).' + ENG_MODEL + ' Budgets: pause or resume at any point of every catalogue shape; pause AND resume at any two points of the small shapes (thorough: also pair_join and the diamond, 4.3 M states each).',
+            ENG_NOTE, ENG_TECH_M, '5, 7-C10'),
     'C11': ('engine', 'model_checking',
             'Stop with ERROR / CANCELLED / SUCCESS at a random step (some while PAUSED), results in flight delivered afterwards; TLC judges '
-            'StopAck, NoNewTasksAfterStop, FinishedFrozen, TreeCancelled on every step.',
-            ENG_NOTE, ENG_TECH, '5, 7-C11'),
+            'StopAck, NoNewTasksAfterStop, FinishedFrozen, TreeCancelled on every step.' + ENG_MODEL + ' Budgets: two stops (each requested state) at any two points, and pause + stop at any two points, of every catalogue shape.',
+            ENG_NOTE, ENG_TECH_M, '5, 7-C11'),
     'C08': ('engine', 'model_checking',
             'Programs whose tasks carry retry, wait-before, wait-after, timeout (literal or expression) and fail-on policies, per-attempt '
             'outcomes from the oracle, under a virtual clock (one third of the runs lets timers fire ahead of pending results); TLC judges '
